@@ -6,6 +6,7 @@
 # Output: one line per property: CAUGHT / MISSED / HARNESS(rc=2)
 set -u
 PATCH=$(readlink -f "$1"); TIER=$2; shift 2
+ROOT=$(dirname "$(dirname "$(readlink -f "$0")")")
 WT=$(mktemp -d /var/tmp/verif-wt-XXXXXX)
 rmdir "$WT"
 git -C /repo worktree add -q "$WT" HEAD || exit 2
@@ -21,7 +22,7 @@ if [ "${SKIP_BASELINE:-0}" != 1 ]; then
   rm -f /var/tmp/verif-wt-test.$$
 fi
 for P in "$@"; do
-  OUT=$(cd /verif && VERIF_REPO="$WT" VERIF_EVIDENCE_DIR=/var/tmp/verif-alt-$$/evidence VERIF_ALT_REPLAYS=/var/tmp/verif-alt-$$/replays bin/check "$P" --tier "$TIER" 2>&1)
+  OUT=$(cd "$ROOT" && VERIF_REPO="$WT" VERIF_EVIDENCE_DIR=/var/tmp/verif-alt-$$/evidence VERIF_ALT_REPLAYS=/var/tmp/verif-alt-$$/replays bin/check "$P" --tier "$TIER" 2>&1)
   RC=$?
   case $RC in
     0) echo "MISSED $P";;
